@@ -191,7 +191,9 @@ def _structure(ctx):
             bad=["for _R_row in _R_parsed.pop('rows'):\n    pass", "for _R_row in _R_parsed['rows']:\n    pass",
                  "for _R_row in _R_parsed.pop('rows', []):\n    pass", "for _R_row in _R_parsed.get('rows'):\n    pass",
                  "for _R_row in _R_parsed.get('rows', []):\n    pass"])
-    sc.need(['for (_R_rcol, _R_rvalue) in _R_row.items():\n    pass'],
+    sc.need(['for (_R_rcol, _R_rvalue) in _R_row.items():\n    pass',
+             '_R_prow = {_R_rcol: parse_embedded_scalar(_R_rvalue, version=_R_version) for (_R_rcol, _R_rvalue) in _R_row.items()}',
+             '_R_grid.append({_R_rcol: parse_embedded_scalar(_R_rvalue, version=_R_version) for (_R_rcol, _R_rvalue) in _R_row.items()})'],
             'rows are iterated over their own keys (omitted columns are fine)', 'a row that omits a column raises KeyError')
     sc.need(["_R_cname = _R_col.pop('name')", "_R_cname = _R_col['name']"], 'columns are identified by cols[].name',
             'columns are not named by their `name` key')
@@ -392,13 +394,33 @@ def _freshness(ctx, rule='C05.D3'):
     # parser.parse must not mutate grid_str / grid_data itself
     pp = m.func('parser', 'parse')
     bad = []
+
+    def _fresh_here(node, name):
+        """is the binding of `name` that reaches `node` a container built by parse() itself ([], {}, list(...), a
+        comprehension, json.loads / deepcopy)?  Looks at the latest earlier assignment in the enclosing blocks."""
+        st = node
+        while st is not None and not isinstance(st, ast.stmt):
+            st = getattr(st, '_parent', None)
+        while st is not None and st is not pp:
+            parent = getattr(st, '_parent', None)
+            for field in ('body', 'orelse', 'finalbody'):
+                blk = getattr(parent, field, None)
+                if isinstance(blk, list) and st in blk:
+                    for prev in reversed(blk[:blk.index(st)]):
+                        if isinstance(prev, ast.Assign) and any(norm(t) == name for t in prev.targets):
+                            v = prev.value
+                            return isinstance(v, (ast.List, ast.Dict, ast.ListComp, ast.DictComp, ast.Set, ast.SetComp)) or (
+                                isinstance(v, ast.Call) and norm(v.func) in ('list', 'dict', 'json.loads', 'copy.deepcopy', 'deepcopy',
+                                                                             'sorted', 'GRID_SEP.split'))
+            st = parent
+        return False
     for n in walk_no_nested(pp):
         if isinstance(n, ast.Call) and isinstance(n.func, ast.Attribute) and n.func.attr in MUTATORS \
-                and norm(n.func.value) in ('grid_str', 'grid_data'):
+                and norm(n.func.value) in ('grid_str', 'grid_data') and not _fresh_here(n, norm(n.func.value)):
             bad.append(n)
         if isinstance(n, ast.Assign):
             for t in n.targets:
-                if isinstance(t, ast.Subscript) and norm(t.value) in ('grid_str', 'grid_data'):
+                if isinstance(t, ast.Subscript) and norm(t.value) in ('grid_str', 'grid_data') and not _fresh_here(n, norm(t.value)):
                     bad.append(n)
     if bad:
         ctx.violation(rule, 'hszinc/parser.py::parse', norm(bad[0]), 'the caller\'s list/dict is changed by parse()',
